@@ -1,5 +1,40 @@
-(* C16 — placeholder until the engine theorems are added below. *)
-From WF Require Import model.Base model.EngineBase model.Engine.
-Theorem C16_emit_dead_silent : forall t s, o_dead s = true -> emit t s = (Ok tt, s).
-Proof. intros t s H. unfold emit. now rewrite H. Qed.
-Print Assumptions C16_emit_dead_silent.
+(* C16 — record identity, versioning, status description, object hand-over. Property theorems only.
+   Quantification: every configuration c, every operation sequence ops (hist_ok: no stale-read fault, clock advances
+   non-negative), hence every fault plan, crash, lease revocation, rewind and duplicate delivery; every Store token of the
+   resulting trace (prev = the run's persisted record at that moment, None for a new run). *)
+From WF Require Import model.Base model.RunState model.Graph model.EngineBase model.Engine model.Monitors
+  proofs.EngineTokens proofs.EngineProps proofs.Examples.
+
+(* identity never changes, versions start at 1 and grow by exactly 1 per write, the update time never goes backwards,
+   the status description describes the status being written *)
+Theorem C16_identity_versions : forall c ops, hist_ok ops -> forall prev r a, In (TStore prev r a) (trace_of c ops) ->
+  r_desc r = r_status r /\
+  match prev with
+  | None => r_ver r = 1
+  | Some p => r_wf r = r_wf p /\ r_fid r = r_fid p /\ r_run r = r_run p /\ r_created r = r_created p /\
+              r_ver r = r_ver p + 1 /\ r_updated p <= r_updated r
+  end.
+Proof. exact p_identity_versions. Qed.
+Print Assumptions C16_identity_versions.
+
+(* the persisted object changes only in a status write (function returned a next status with nil error; the run was not
+   stopped) or in the data-deletion rewrite: skip, error, pause, cancel, resume persist nothing of a function's changes *)
+Theorem C16_object_iff : forall c ops, hist_ok ops -> forall p r a, In (TStore (Some p) r a) (trace_of c ops) ->
+  r_obj r <> r_obj p ->
+  r_state r = RSDataDeleted \/ ((r_state r = RSRunning \/ r_state r = RSCompleted) /\ rs_stopped (r_state p) = false).
+Proof. exact p_object_changes. Qed.
+Print Assumptions C16_object_iff.
+
+(* every step / callback / timeout function observes exactly the persisted object (and version, status) of its run *)
+Theorem C16_fresh_view : forall c ops, hist_ok ops -> forall u view pers now planned,
+  In (TUser u view pers now planned) (trace_of c ops) -> is_step_fn u = true ->
+  exists p, pers = Some p /\ rs_stopped (r_state p) = false /\ r_obj view = r_obj p /\ r_ver view = r_ver p /\
+            r_status view = r_status p /\ r_run view = r_run p.
+Proof. exact p_fresh_view. Qed.
+Print Assumptions C16_fresh_view.
+
+(* non-vacuity: a history satisfying hist_ok with faults, a crash, control operations and data deletion, whose trace
+   contains effective writes to existing runs and function invocations *)
+Theorem C16_nonvacuous : hist_ok ex_ops /\ (3 <= count_stores (trace_of ex_cfg ex_ops))%nat /\ (2 <= count_users (trace_of ex_cfg ex_ops))%nat.
+Proof. exact (conj ex_hist_ok ex_nonvacuous). Qed.
+Print Assumptions C16_nonvacuous.
